@@ -336,10 +336,13 @@ func (t *Thread) processIncomingInterest(packet *defn.Pkt) {
 
 	// Exclude faces that have an in-record for this interest
 	// TODO: unclear where NFD dev guide specifies such behavior (if any)
+	// An in-record whose InterestLifetime has elapsed is not a pending Interest any more (it
+	// stays in the entry until Data arrives or the entry goes): it does not exclude the face
+	now := time.Now()
 	allowedNexthops := make([]*table.FibNextHopEntry, 0, len(nexthops))
 	for _, nexthop := range nexthops {
 		record := pitEntry.InRecords()[nexthop.Nexthop]
-		if record == nil || nexthop.Nexthop == incomingFace.FaceID() {
+		if record == nil || !record.ExpirationTime.After(now) || nexthop.Nexthop == incomingFace.FaceID() {
 			allowedNexthops = append(allowedNexthops, nexthop)
 		}
 	}
